@@ -132,6 +132,19 @@ pub fn view(sig: c_int) -> SlotView {
     v
 }
 
+/// Fallback build (`--cfg sighook_verif_nostate`, used by `check` when the
+/// instrumented build does not compile): the two accessors that name the private
+/// field `SignalData.next_id` are replaced by a marker panic.  Harnesses that
+/// need them are reported inconclusive; the others still run.
+#[cfg(sighook_verif_nostate)]
+fn unavailable() -> ! {
+    panic!("verification hook unavailable: the private layout of SignalData changed")
+}
+#[cfg(sighook_verif_nostate)]
+pub fn next_id() -> u128 {
+    unavailable()
+}
+#[cfg(not(sighook_verif_nostate))]
 pub fn next_id() -> u128 {
     let g = GlobalData::ensure();
     let q = unsafe { ::std::mem::replace(&mut libc::vshim::ST::quiet, true) };
@@ -237,6 +250,11 @@ impl StateBuilder {
             ::std::mem::forget(old);
         }
     }
+    #[cfg(sighook_verif_nostate)]
+    pub fn publish(self, _next_id: u128) {
+        unavailable()
+    }
+    #[cfg(not(sighook_verif_nostate))]
     pub fn publish(self, next_id: u128) {
         let g = GlobalData::ensure();
         let q = unsafe { ::std::mem::replace(&mut libc::vshim::ST::quiet, true) };
